@@ -378,7 +378,7 @@ func c17Values(c *mon.Ctx, r *mon.Rand) {
 // c17Conflicts: every ordered pair of kinds reusing one name, and the same
 // kind with different tag keys; panicking and silent callbacks.
 func c17Conflicts(c *mon.Ctx, r *mon.Rand) {
-	kinds := []string{"counter", "gauge", "timer-summary", "timer-histogram", "histogram", "register-timer-summary", "register-timer-histogram"}
+	kinds := []string{"counter", "gauge", "timer-summary", "timer-histogram", "histogram", "register-timer-summary", "register-timer-histogram", "register-counter", "register-gauge"}
 	first, second := kinds[r.Intn(len(kinds))], kinds[r.Intn(len(kinds))]
 	panicking := r.Bool()
 	sameKeys := !r.Chance(1, 4)
@@ -433,6 +433,23 @@ func c17Conflicts(c *mon.Ctx, r *mon.Rand) {
 				h := rep.AllocateHistogram("x", tags, tally.ValueBuckets{1, 2})
 				h.ValueBucket(1, 2).ReportSamples(1)
 				h.DurationBucket(time.Second, 2*time.Second).ReportSamples(1)
+			}
+		case "register-counter", "register-gauge":
+			// the Register* entry points with one and the same help text for every kind
+			// (Prometheus tells collectors apart by name, help and label names only)
+			keys := make([]string, 0, len(tags))
+			for k := range tags {
+				keys = append(keys, k)
+			}
+			sort.Strings(keys)
+			if kind == "register-counter" {
+				if v, err := rep.RegisterCounter("x", keys, "x timer"); err == nil && v == nil {
+					c.Violation("register-nil-vector", map[string]interface{}{"why": "RegisterCounter returned a nil vector and a nil error", "case": desc})
+				}
+			} else {
+				if v, err := rep.RegisterGauge("x", keys, "x timer"); err == nil && v == nil {
+					c.Violation("register-nil-vector", map[string]interface{}{"why": "RegisterGauge returned a nil vector and a nil error", "case": desc})
+				}
 			}
 		case "register-timer-summary", "register-timer-histogram":
 			keys := make([]string, 0, len(tags))
